@@ -90,7 +90,11 @@ func configs(r *ev.Run) []cfg {
 		}
 	}
 	// large sets: signer choice restricted to q+1 guardians at three placements, own key first/middle/last/absent
-	for _, n := range []int{5, 7, 8, 10, 12, 13, 19} {
+	sizes := []int{5, 7, 8, 10, 12, 13, 19}
+	if r.Thorough() {
+		sizes = rng(5, 20) // every size up to the documented maximum
+	}
+	for _, n := range sizes {
 		q := proch.Quorum(n)
 		for pi, start := range []int{0, (n - q - 1) / 2, n - q - 1} {
 			for oi, ownKey := range []int{0, n / 2, n - 1, 500} {
